@@ -165,7 +165,29 @@ def hostile_docs(tier):
     xsd = '<xs:schema xmlns:xs="http://www.w3.org/2001/XMLSchema"><xs:element name="r"><xs:complexType><xs:sequence><xs:element name="a" minOccurs="0" maxOccurs="1000000000"/>' \
           '<xs:sequence minOccurs="2" maxOccurs="40"><xs:element name="b" minOccurs="0" maxOccurs="2"/><xs:element name="c"/></xs:sequence></xs:sequence></xs:complexType></xs:element></xs:schema>'
     docs.append(('huge-maxoccurs', ['sax2', 'dom'], '<r xmlns:xsi="http://www.w3.org/2001/XMLSchema-instance" xsi:noNamespaceSchemaLocation="h.xsd">' + '<a/>' * 50 + '<b/><c/><c/>' + '</r>', {'val': 1, 'schema': 1, 'fullcheck': 0, 'ent:h.xsd': xsd}))
+    # exponential entity chains under an expansion limit of 100: work must stay bounded by (limit+2)*(input+64) events+characters whatever mixture of
+    # internal and EXTERNAL general entities carries the chain (external entities are served by the resolver)
+    def bomb(levels, fan, leaf, mid_ext=None):
+        decl = ['<!ENTITY e0 "%s">' % leaf]
+        for i in range(1, levels + 1):
+            body = ('&e%d;' % (i - 1)) * fan
+            if mid_ext is not None and i == mid_ext: body = '&x;' + body
+            decl.append('<!ENTITY e%d "%s">' % (i, body))
+        return '<!DOCTYPE a [<!ENTITY x SYSTEM "x.ent">' + ''.join(decl) + ']><a>&e%d;</a>' % levels
+    docs.append(('bomb-internal', ['sax2', 'sax1', 'dom'], bomb(5, 8, 'lol'), {'bounded': 1, 'ent:x.ent': 'X'}))
+    docs.append(('bomb-external-leaf', ['sax2', 'sax1', 'dom'], bomb(5, 8, 'l&x;l'), {'bounded': 1, 'ent:x.ent': 'X'}))
+    docs.append(('bomb-external-mid', ['sax2', 'sax1', 'dom'], bomb(5, 8, 'lol', mid_ext=2), {'bounded': 1, 'ent:x.ent': '<i>X</i>'}))
+    docs.append(('bomb-external-nested', ['sax2', 'dom'], bomb(4, 9, '&x;'), {'bounded': 1, 'ent:x.ent': 'text &#38;amp; more'}))
     return docs
+
+def work_of(resp):
+    """events + characters delivered, from the canonical event dump (character count from the escaped text: an under-estimate)"""
+    n = 0
+    for l in resp.split('\n'):
+        if not l: continue
+        n += 1
+        if l.startswith(('T\t', 'IW\t')): n += len(l) - 2
+    return n
 
 def hostile_lane(ctx):
     S = ctx.stats; ex = ctx.executor('xvexec')
@@ -181,6 +203,8 @@ def hostile_lane(ctx):
                     resp = ex.request(req, timeout=90)
                     if xv.has_foreign(resp):
                         S.failures.append({'case': {'hostile': name, 'api': api, 'feat': feat, 'tier': ctx.tier}, 'detail': 'foreign exception from parse() on hostile document %s' % name})
+                    if opt.get('bounded') and work_of(resp) > 102 * (len(text) + 64):
+                        S.failures.append({'case': {'hostile': name, 'api': api, 'feat': feat, 'tier': ctx.tier}, 'detail': 'bounded-work: %d events+characters delivered for a %d-byte document under an entity-expansion limit of 100 (bound %d)' % (work_of(resp), len(text), 102 * (len(text) + 64))})
                 except xv.ExecutorDied as e:
                     if e.rc in (-9,) and 'ERROR' not in e.stderr: S.inconclusive += 1; S.labels['hostile-watchdog:' + name] += 1; continue
                     S.failures.append({'case': {'hostile': name, 'api': api, 'feat': feat, 'tier': ctx.tier}, 'detail': 'executor died rc=%s on hostile document %s\n%s' % (e.rc, name, e.stderr[-3000:])})
@@ -235,6 +259,7 @@ def replay(case, ctx):
                 if k.startswith('ent:'): req[k] = v.encode()
             try:
                 resp = ex.request(req, timeout=480)
+                if opt.get('bounded') and work_of(resp) > 102 * (len(text) + 64): return False, 'bounded-work: %d events+characters for %d bytes' % (work_of(resp), len(text))
                 return (not xv.has_foreign(resp)), 'foreign exception' if xv.has_foreign(resp) else 'ok'
             except xv.ExecutorDied as e:
                 if e.rc == -9 and 'ERROR' not in e.stderr: return True, 'inconclusive: watchdog'
